@@ -951,6 +951,27 @@ func (run *c08Run) sweep() {
 	}
 	flush()
 
+	// (c2) history independence: the same (schema, document) requests, several documents per schema
+	// object, forwards and backwards in fresh processes — errors AND links must not depend on what
+	// was validated against the same schema before
+	{
+		var hreqs []string
+		hs := "type Query { page(size: Int!, tags: [ID!]!): Int f(in: In): Int }\ninput In { lo: Int! hi: Int = 3 }"
+		for _, d := range []string{
+			"query($n: Int = 1) { page(size: $n, tags: []) }", "{ page(size: null, tags: []) }", "{ page(tags: []) }",
+			"query($t: ID = \"a\") { page(size: 1, tags: [$t]) }", "{ page(size: 1, tags: [null]) }",
+			"query($l: Int = 2) { f(in: {lo: $l}) }", "{ f(in: {lo: null}) }", "{ f(in: {}) }",
+		} {
+			hreqs = append(hreqs, "vshared default "+impl.HexW([]byte(hs))+" "+impl.HexW([]byte(d)))
+		}
+		for i, p := range sample {
+			if i%3 == 0 && len(hreqs) < run.c.Pick(600, 6000) {
+				hreqs = append(hreqs, "vshared default "+impl.HexW([]byte(p[0]))+" "+impl.HexW([]byte(p[1])))
+			}
+		}
+		c.HistoryProbe("validate+links", hreqs, 30)
+	}
+
 	// (d) the model in the loop: validator vs Lean rule models on a sample (every modelled rule)
 	c.CorrValidate(sample, NonOverlapRules)
 	fmt.Printf("C08: model correspondence (CorrValidate) on a sample of %d pairs\n", len(sample))
@@ -973,6 +994,14 @@ func (run *c08Run) finish() {
 		}
 		kind := "spec"
 		level := "the verdicts differ"
+		if !f.verdict && !isLinkSig(sig) && (strings.HasPrefix(sig, "validator-accepts-spec-rejects:") || strings.HasPrefix(sig, "validator-rejects-spec-accepts:")) {
+			// Both sides REJECT the document (another rule reports); only this rule and its own
+			// predicate disagree. C08 is about the verdict — no errors iff every rule is satisfied —
+			// so this is not an input on which the property fails: counted and shown, not reported.
+			c.Ev.Count("rule-level-difference-on-rejected-documents:"+sig, f.n)
+			fmt.Printf("  (rule-level difference on documents both sides reject, %d cases: %s\n     schema: %s\n     document: %s)\n", f.n, sig, oneLine(f.schema), oneLine(f.doc))
+			continue
+		}
 		if !f.verdict {
 			level = "both sides reject the document, the rule and its predicate differ"
 		}
@@ -1044,11 +1073,18 @@ func init() {
 		c.SigFilter = func(sig string) bool { return !isLinkSig(sig) }
 		run := newC08Run(c)
 		run.sweep()
+		// field-merging needs its own inputs: the mutation stage of the OverlappingFieldsCanBeMerged
+		// correspondence (duplicated fields, aliases, arguments, rewired spreads, cyclic fragments) at
+		// one eighth of its size — model = real rule on every mutant, and every mutant judged against
+		// the specification predicates as well
+		overlapScaleDiv, overlapOnBatch = 8, func(b [][2]string) { run.batch(b, "overlap-mutants") }
+		Checks["X-overlap"](c)
+		overlapScaleDiv, overlapOnBatch = 1, nil
 		run.finish()
 	}
 	Checks["C09"] = func(c *Ctx) {
 		c.SigFilter = func(sig string) bool {
-			return isLinkSig(sig) || sig == "validate-go-crash" || sig == "spec-op-reply" || strings.HasPrefix(sig, "rule-never") || strings.HasPrefix(sig, "predicate-never")
+			return isLinkSig(sig) || strings.HasPrefix(sig, "depends-on-history") || sig == "validate-go-crash" || sig == "spec-op-reply" || strings.HasPrefix(sig, "rule-never") || strings.HasPrefix(sig, "predicate-never")
 		}
 		run := newC08Run(c)
 		run.sweep()
